@@ -516,6 +516,9 @@ func MergeConfig(a, b *Config) *Config {
 	if b.BroadcastTimeout != 0 {
 		result.BroadcastTimeout = b.BroadcastTimeout
 	}
+	if b.ValidateNodeNames {
+		result.ValidateNodeNames = true
+	}
 	result.EnableCompression = b.EnableCompression
 
 	// Copy the event handlers
